@@ -228,7 +228,7 @@ func main() {
 		Workers: 4,
 		Timeout: 30 * time.Second,
 		Rule: "kind=prov: random request lists (name(n,sleep), sleep(ms), malformed items, several weighted scenarios, duplicate names) through the real http/scenario provider plugin; " +
-			"kind=gun: random scenarios with chains of captured variables, [next]/[idx]/[last]/[rand] preprocessors, jsonpath/header extractors and assertions shot by the real http/scenario gun (1 and 4 instances) at scripted targets that fail chosen steps (transport, bad JSON, missing key, status), data sources of 0..60 rows; " +
+			"kind=gun: random scenarios with chains of captured variables (what a request captures is mostly rendered by the request defined next; the first scenario often lists every request in definition order), [next]/[idx]/[last]/[rand] preprocessors, jsonpath/header extractors (header values through lower/upper/substr/replace modifier chains, several mapping entries per extractor, malformed modifiers) and assert/response blocks (status, body texts, header texts, size eq/lt/gt at and around the real body length, alone and combined) shot by the real http/scenario gun (1 and 4 instances) at scripted targets that fail chosen steps (transport, body cut short after the headers, bad JSON, missing key, status), data sources of 0..60 rows; plus focused three-request cases a|b|c for the postprocessors; every case runs in a child process so that a runtime fatal error (concurrent map writes, data race in the -race build) is attributed to its input; " +
 			"kind=first: all instances (2..16) make the FIRST [next] lookup of a path on a fresh iterator at the same moment, under a schedule forced through the iterator's own mutex (mode=ctl) or released by a spin barrier (mode=par); " +
 			"non-trivial = at least two steps or two scenarios or two instances",
 	})
